@@ -85,7 +85,56 @@ static size_t c_pfor(int in, uint8_t *o, size_t cap) {
     memcpy(o + w, back + N - 8, 64);
     return w + 64;
 }
-static size_t c_group(int in, uint8_t *o, size_t cap) { (void)cap; return varintGroupEncode(o, IN[in], 40); }
+/* readers and accessors of every codec run concurrently too: full decoders,
+ * random access, header accessors, sizing functions */
+static size_t put_u64s(uint8_t *o, size_t at, const uint64_t *v, size_t k) {
+    memcpy(o + at, v, k * 8);
+    return at + k * 8;
+}
+static size_t c_group(int in, uint8_t *o, size_t cap) {
+    (void)cap;
+    size_t w = varintGroupEncode(o, IN[in], 40);
+    uint64_t r[8] = {0};
+    uint64_t back[64];
+    uint8_t fc = 0;
+    r[0] = varintGroupDecode(o, back, &fc, 64);
+    r[1] = fc;
+    r[2] = varintGroupGetSize(o);
+    r[3] = varintGroupGetFieldCount(o);
+    varintGroupGetField(o, 0, &r[4]);
+    varintGroupGetField(o, 17, &r[5]);
+    varintGroupGetField(o, 39, &r[6]);
+    r[7] = varintGroupSize(IN[in], 40);
+    size_t at = put_u64s(o, w, r, 8);
+    return put_u64s(o, at, back, 40);
+}
+static size_t c_readers(int in, uint8_t *o, size_t cap) {
+    (void)cap;
+    uint64_t r[24] = {0};
+    uint8_t *buf = o + 8192; /* scratch inside the private output */
+    varintFORMeta fm; memset(&fm, 0, sizeof(fm));
+    size_t w = varintFOREncode(buf, IN[in], N, &fm);
+    r[0] = w; r[1] = varintFORGetAt(buf, 0); r[2] = varintFORGetAt(buf, N - 1); r[3] = varintFORGetCount(buf);
+    r[4] = varintFORGetMinValue(buf); r[5] = varintFORGetOffsetWidth(buf); r[6] = varintFORSize(&fm);
+    varintPFORMeta pm; memset(&pm, 0, sizeof(pm));
+    w = varintPFOREncode(buf, IN[in], N, 95, &pm);
+    varintPFORMeta rm; memset(&rm, 0, sizeof(rm));
+    varintPFORReadMeta(buf, &rm);
+    r[7] = w; r[8] = varintPFORGetAt(buf, 3, &rm); r[9] = varintPFORGetAt(buf, N - 1, &rm); r[10] = rm.exceptionCount;
+    w = varintRLEEncode(buf, IN[in], N, NULL);
+    r[11] = w; r[12] = varintRLEGetAt(buf, N / 2); r[13] = varintRLEGetRunCount(buf, w); r[14] = varintRLESize(IN[in], N);
+    w = varintDictEncode(buf, IN[in], N);
+    size_t cnt = 0;
+    uint64_t *d = w ? varintDictDecode(buf, w, &cnt) : NULL;
+    r[15] = w; r[16] = cnt; r[17] = d ? d[cnt - 1] : 0; r[18] = varintDictEncodedSize(IN[in], N);
+    free(d);
+    w = varintAdaptiveEncode(buf, IN[in], N, NULL);
+    varintAdaptiveMeta am; memset(&am, 0, sizeof(am));
+    varintAdaptiveReadMeta(buf, &am);
+    r[19] = w; r[20] = am.encodingType; r[21] = varintAdaptiveGetEncodingType(buf);
+    r[22] = varintBP128MaxBitWidth64(IN[in], N); r[23] = varintTaggedLen(IN[in][5]);
+    return put_u64s(o, 0, r, 24);
+}
 static size_t c_dict(int in, uint8_t *o, size_t cap) {
     (void)cap;
     size_t w = varintDictEncode(o, IN[in], N);
@@ -231,7 +280,7 @@ static const struct { const char *name; callfn fn; } CALLS[] = {
     {"tagged", c_tagged}, {"external", c_ext}, {"chained", c_chained}, {"delta", c_delta}, {"for", c_for},
     {"pfor", c_pfor}, {"group", c_group}, {"dict", c_dict}, {"rle", c_rle}, {"elias", c_elias},
     {"bp128", c_bp}, {"float", c_float}, {"adaptive", c_adaptive}, {"packed", c_packed},
-    {"bitstream", c_bitstream}, {"adaptive_big", c_adaptive_big}, {"bitmap_obj", c_bitmap_obj}};
+    {"bitstream", c_bitstream}, {"adaptive_big", c_adaptive_big}, {"bitmap_obj", c_bitmap_obj}, {"readers", c_readers}};
 #define NCALLS (sizeof(CALLS) / sizeof(CALLS[0]))
 
 static pthread_barrier_t bar;
